@@ -428,6 +428,11 @@ def handle (st : DState) (j : Json) : R (DState × Json) := do
     match NSG.Codec.viewFromDict x with
     | none => return (st, Json.mkObj [("ok", false)])
     | some v => return (st, Json.mkObj [("ok", true), ("j", ofJ (NSG.Codec.viewAsDict v))])
+  | "obsrt" =>
+    let x ← toJ (← jfield j "j")
+    match NSG.Codec.obsFromDict x with
+    | none => return (st, Json.mkObj [("ok", false)])
+    | some o => return (st, Json.mkObj [("ok", true), ("j", ofJ (NSG.Codec.obsAsDict o))])
   | "config" =>
     let V ← jcval j
     let cfg ← toY (← jfield j "cfg")
